@@ -91,6 +91,9 @@ def ct_cases(r, tier):
     cases.append(("ed.msm_ct", "ed.msm_ct {0} %s" % ",".join(ps), [(",".join(H(r.choice(sc)) for _ in range(3)),) for _ in range(npair + 1)]))
     cases.append(("ed.compress", "ed.compress {0}", [(p.hex(),) for p in pt]))
     cases.append(("mont.mul", "mont.mul %s {0}" % H(9), [(H(a),) for a in (0, 1, L - 1, r.below(L), r.below(L))]))
+    # fixed-base Montgomery multiplication: the secret 0 (mod l) makes the Edwards result the identity, the exceptional input of the
+    # birational map (Z - Y = 0, handled by invert(0) = 0, not by a branch)
+    cases.append(("mont.mul_base", "mont.mul_base {0}", [(H(a),) for a in (0, 1, L - 1, r.below(L))]))
     cases.append(("x.x25519", "x.x25519 {0} %s" % H(9), [(H(a),) for a in (0, (1 << 256) - 1, rnd(), rnd())]))
     cases.append(("x.x25519:secret_u", "x.x25519 %s {0}" % H(rnd()), [(H(a),) for a in (0, 1, 9, P - 1, rnd())]))
     cases.append(("ris.from_uniform", "ris.from_uniform {0}", [(H(a, 64),) for a in (0, (1 << 512) - 1, r.below(1 << 512), r.below(1 << 512))]))
